@@ -563,6 +563,31 @@ func checkC02(c *vlib.Ctx) (string, string) {
 
 func init() { registry["C02"] = checkC02 }
 
+// c02TableReplay re-runs a cell of the tables family up to the given exchange and judges that one.
+func c02TableReplay(lit CfgLit, route int, debug bool, ins []ref.Intent, round, idx int) *vlib.Failure {
+	bm, err := buildViaH(route, lit, debug)
+	if err != nil {
+		return vlib.Failf("configuration rejected: %v", err)
+	}
+	h := bm.wrap(http.HandlerFunc(func(http.ResponseWriter, *http.Request) {}))
+	rec := vlib.NewRec()
+	for r := 0; r <= round; r++ {
+		for ii, in := range ins {
+			got, why := c02BrowseRec(h, in, 0, rec)
+			if r == 1 && got == ref.Permits(lit.Policy(), in) {
+				got, why = c02BrowseRec(h, in, 0, rec)
+			}
+			if r == round && ii == idx {
+				if want := ref.Permits(lit.Policy(), in); got != want {
+					return vlib.Failf("after %d earlier exchanges on the same handler: browser verdict=%t (%s), the configuration permits the request: %t; config=%s intent=%+v", r*len(ins)+ii, got, why, want, lit.GoLiteral(), in)
+				}
+				return nil
+			}
+		}
+	}
+	return nil
+}
+
 // c02Tables: families that walk the lookup tables and the size thresholds rather than a product.
 //   - every spelling (upper, lower, Title) of the methods browsers normalise and of some they do not, as the only
 //     listed method x every such spelling as the intent's method;
@@ -679,19 +704,28 @@ func c02Tables(c *vlib.Ctx, ck *Checker[c02Case]) {
 				return
 			}
 			h := bm.wrap(http.HandlerFunc(func(http.ResponseWriter, *http.Request) {}))
-			for _, in := range cells[i].ins {
-				want := ref.Permits(lit.Policy(), in)
-				if want {
-					c.Nontrivial.Add(1)
-				}
-				c.Evaluations.Add(1)
-				c.Transitions.Add(2)
-				if got, _ := c02BrowseRec(h, in, 0, rec); got != want {
-					k := c02Case{Cfg: lit, Intent: in, Debug: d == 1, Route: route}
-					if f := vlib.Guard(func() *vlib.Failure { return c02Judge(k) }); f != nil {
-						ck.Report(k, f)
-					} else {
-						vlib.HarnessError("fast path and judge disagree on %+v", k)
+			// twice through on the same handler: whatever the first pass (up to several hundred distinct origins) left
+			// behind must not decide the second
+			for round := 0; round < 2; round++ {
+				for ii, in := range cells[i].ins {
+					want := ref.Permits(lit.Policy(), in)
+					if want && round == 0 {
+						c.Nontrivial.Add(1)
+					}
+					c.Evaluations.Add(1)
+					c.Transitions.Add(2)
+					got, _ := c02BrowseRec(h, in, 0, rec)
+					if round == 1 && got == want {
+						got, _ = c02BrowseRec(h, in, 0, rec) // in the second round every intent comes twice in a row
+					}
+					if got != want {
+						k := c02Case{Cfg: lit, Intent: in, Debug: d == 1, Route: route}
+						if f := vlib.Guard(func() *vlib.Failure { return c02Judge(k) }); f != nil {
+							ck.Report(k, f)
+						} else {
+							ck.C.Violation(k, vlib.Failf("tables family, round %d: verdict %t for intent #%d %+v, the configuration permits it: %t; a fresh middleware gives the right verdict, so the answer depends on the %d exchanges served before on the same handler; config=%s", round+1, got, ii, in, want, round*len(cells[i].ins)+ii, lit.GoLiteral()),
+								func() *vlib.Failure { return c02TableReplay(lit, route, d == 1, cells[i].ins, round, ii) }, "")
+						}
 					}
 				}
 			}
